@@ -184,12 +184,19 @@ func build(p *propCfg, only string) (*built, error) {
 			needInstr = true
 		}
 	}
-	if needInstr {
-		overlay = filepath.Join(dir, "overlay.json")
-		cmd := exec.Command(filepath.Join(verifDir, "bin", "instr"), "-repo", repoDir, "-out", filepath.Join(dir, "instr"), "-overlay", overlay, "-sites", filepath.Join(dir, "sites.tsv"))
+	instrument := func(locks bool) error {
+		cmd := exec.Command(filepath.Join(verifDir, "bin", "instr"), "-repo", repoDir, "-out", filepath.Join(dir, "instr"), "-overlay", overlay, "-sites", filepath.Join(dir, "sites.tsv"), fmt.Sprintf("-locks=%v", locks))
 		cmd.Env = env()
 		if out, err := cmd.CombinedOutput(); err != nil {
-			return b, fmt.Errorf("instrumenter failed: %v\n%s", err, out)
+			return fmt.Errorf("instrumenter failed: %v\n%s", err, out)
+		}
+		return nil
+	}
+	locksRewritten := true
+	if needInstr {
+		overlay = filepath.Join(dir, "overlay.json")
+		if err := instrument(true); err != nil {
+			return b, err
 		}
 	}
 	if _, err := os.Stat(filepath.Join(simDir, "go.sum")); err != nil {
@@ -230,6 +237,20 @@ func build(p *propCfg, only string) (*built, error) {
 		cmd.Dir = simDir
 		cmd.Env = env()
 		out, err := cmd.CombinedOutput()
+		if err != nil && overlay != "" && (p.Instr || v.Instr) && locksRewritten && strings.Contains(string(out), "TryR") || err != nil && overlay != "" && (p.Instr || v.Instr) && locksRewritten && strings.Contains(string(out), "TryLock") {
+			// the tree has a Lock()/RLock() statement on something without TryLock/TryRLock (types are not known to the
+			// instrumenter): instrument again without the lock rewriting and keep the stall watchdog as the only answer to
+			// a task blocking while it holds the baton
+			fmt.Fprintf(os.Stderr, "vsim: lock statements cannot be rewritten as TryLock loops on this tree; instrumenting without\n")
+			locksRewritten = false
+			if ierr := instrument(false); ierr != nil {
+				return b, ierr
+			}
+			cmd = exec.Command(goBin, args...)
+			cmd.Dir = simDir
+			cmd.Env = env()
+			out, err = cmd.CombinedOutput()
+		}
 		if err != nil {
 			return b, fmt.Errorf("build of %s (%s) failed: %v\n%s", p.ID, v.Name, err, out)
 		}
@@ -280,10 +301,11 @@ type workerResult struct {
 	viol     *violation
 	failfile string
 	wall     float64
+	checks   int
 }
 
 func runWorker(p *propCfg, v variant, bin, dir string, idx int, seed uint64, checks int, tier string, timeout time.Duration, extraArgs []string, extraEnv []string) workerResult {
-	res := workerResult{variant: v.Name, idx: idx, seed: seed}
+	res := workerResult{variant: v.Name, idx: idx, seed: seed, checks: checks}
 	wdir := filepath.Join(dir, fmt.Sprintf("w-%s-%d", v.Name, idx))
 	_ = os.MkdirAll(wdir, 0o755)
 	outDir := filepath.Join(wdir, "out")
@@ -364,6 +386,7 @@ type replayFile struct {
 	Variant   string   `json:"variant"`
 	Worker    int      `json:"worker"`
 	RapidSeed uint64   `json:"rapid_seed"`
+	Checks    int      `json:"rapid_checks"` // budget of the worker that found it (a replay without a fail file re-runs that many)
 	Test      string   `json:"test"`
 	Pkg       string   `json:"pkg"`
 	FailFile  string   `json:"rapid_failfile"`
@@ -476,14 +499,21 @@ func cmdCheck(args []string) int {
 		case r.timedOut:
 			fmt.Fprintf(os.Stderr, "vsim: worker %s/%d exceeded its watchdog; output tail:\n%s\n", r.variant, r.idx, tail(r.out, 30))
 			infra = true
-		case r.exit != 0 && r.viol != nil && strings.Contains(r.out, "[rapid] flaky test, can not reproduce") && !strings.HasPrefix(r.viol.Key, "C18/race:"):
+		case r.exit != 0 && r.viol != nil && strings.Contains(r.out, "[rapid] flaky test, can not reproduce") && !strings.HasPrefix(r.viol.Key, "C18/race:") && !strings.HasPrefix(r.viol.Key, "C18/deadlock:"):
 			// (a ThreadSanitizer report with frames inside the tink tree is physical evidence of two unsynchronised
-			// accesses and stays a violation even if — e.g. with sync.Pool involved — it does not recur on re-execution)
+			// accesses and stays a violation even if — e.g. with sync.Pool involved — it does not recur on re-execution;
+			// after an established deadlock the process is left with locks held, so the world skips every later run of
+			// that process, including rapid's confirming one: the replay re-runs the worker from its seed in a fresh process)
 			// the failing run did not fail again when rapid re-executed the very same draws in the same process: one seed
 			// must be one execution, so this is a nondeterminism alarm (infrastructure), never a violation
 			fmt.Fprintf(os.Stderr, "vsim: worker %s/%d: a failure (%s) did not repeat on immediate re-execution of the same draws — nondeterminism outside the simulator's control; not reported as a violation. Output tail:\n%s\n", r.variant, r.idx, r.viol.Key, tail(r.out, 25))
 			infra = true
 		case r.exit != 0 && r.viol != nil:
+			if strings.HasPrefix(r.viol.Key, "C18/deadlock:") || strings.Contains(r.out, "[rapid] flaky test, can not reproduce") {
+				// the fail file (if any) records rapid's confirming re-run, which this process could not execute faithfully
+				// any more; the replay re-runs the worker from its seed
+				r.failfile = ""
+			}
 			viols = append(viols, r)
 		case r.exit != 0:
 			fmt.Fprintf(os.Stderr, "vsim: worker %s/%d failed without a violation record (harness trouble), exit %d; output tail:\n%s\n", r.variant, r.idx, r.exit, tail(r.out, 60))
@@ -504,7 +534,7 @@ func cmdCheck(args []string) int {
 		}
 		seenKey[r.viol.Key] = true
 		rf := replayFile{Property: p.ID, Key: r.viol.Key, Detail: r.viol.Detail, Tier: *tier, VerifSeed: verifSeed, Variant: r.variant,
-			Worker: r.idx, RapidSeed: r.seed, Test: p.Test, Pkg: p.Pkg, FailFile: r.failfile, Trace: r.viol.Trace,
+			Worker: r.idx, RapidSeed: r.seed, Checks: r.checks, Test: p.Test, Pkg: p.Pkg, FailFile: r.failfile, Trace: r.viol.Trace,
 			Repo: repoDescribe(), Toolchain: goBin, How: "/verif/bin/vsim replay <this file>"}
 		path := filepath.Join(verifDir, "replays", fmt.Sprintf("%s-%s-seed%d-w%d.json", p.ID, sanitize(r.viol.Key), verifSeed, r.idx))
 		data, _ := json.MarshalIndent(&rf, "", " ")
@@ -811,7 +841,15 @@ func cmdReplay(args []string) int {
 		_ = os.WriteFile(ff, []byte(rf.FailFile), 0o644)
 		extra = []string{"-rapid.failfile", ff, "-rapid.nofailfile"}
 	} else {
-		checks = 1 << 30 // re-run from the seed until it fails again
+		// re-run the worker from its seed: same draws, so it fails again at the same run if the tree still has the fault;
+		// bounded by the budget the worker had
+		checks = rf.Checks
+		if checks <= 0 {
+			checks = v.Quick
+			if rf.Tier == "thorough" {
+				checks = v.Thorough
+			}
+		}
 	}
 	r := runWorker(p, *v, b.bins[v.Name], b.dir, rf.Worker, seed, checks, rf.Tier, 30*time.Minute, extra, []string{"VSIM_TRACE=1"})
 	if r.exit == 0 {
